@@ -511,13 +511,14 @@ def _uninstall():
 # ----------------------------------------------------------------------------------------------
 # explorers
 
-def explore(run, bound=None, max_exec=200000):
+def explore(run, bound=None, max_exec=200000, branch=None):
     """Stateless DFS over answer sequences (the brief's idiom).
 
     run(prefix) executes the system with `prefix` as answers (0 afterwards) and returns the list of
     choice points met, each a dict with 'menu' and 'choice'.  Every alternative at every point after
     the prefix is explored, subject to `bound` = max number of non-default answers (None = complete
-    product).  Returns (executions, capped)."""
+    product).  `branch(point)` restricts which choice points are branched in this phase (the others keep
+    their default answer).  Returns (executions, capped)."""
     stack = [((), ())]
     nexec = 0
     capped = False
@@ -539,6 +540,8 @@ def explore(run, bound=None, max_exec=200000):
             continue
         cur_menus = tuple(pt["menu"] for pt in points)
         for i in range(len(points) - 1, len(prefix) - 1, -1):
+            if branch is not None and not branch(points[i]):
+                continue            # not branched in this phase: stays at its default answer
             for alt in range(points[i]["menu"] - 1, 0, -1):
                 np_prefix = tuple(prefix) + (0,) * (i - len(prefix)) + (alt,)
                 stack.append((np_prefix, cur_menus[:i + 1]))
